@@ -8,6 +8,8 @@ args = sys.argv[i+1:]
 d = tempfile.mkdtemp(prefix="gvc-try-")
 try:
     subprocess.run(["rsync", "-a", "--exclude", ".git", "/repo/", d + "/"], check=True)
+    if os.path.isabs(file):
+        file = os.path.relpath(file, "/repo")
     p = os.path.join(d, file)
     s = open(p).read()
     if old not in s:
